@@ -39,6 +39,11 @@ def newlabel_menu(lab, kind):
          "empty": [], "perm_absent": ([hi] + list(lab[::-1]) + [lo, mid]), "single_absent": [mid]}
     if n >= 2:
         m["rotated"] = list(lab[1:]) + [lab[0]]
+    # same length, every label present except one that is replaced by a value just below it: the clipped search returns
+    # each position itself (an "identity take" that nevertheless has a missing label)
+    for j in range(n):
+        below = (lab[j] - (0.5 if kind == "i" else 0.125)) if kind in "if" else (chr(ord(lab[j][0]) - 1) + "zz")
+        m["same_len_missing%d" % j] = list(lab[:j]) + [below] + list(lab[j + 1:])
     if kind in "if" and n:   # fractional labels hugging existing ones (must be treated as absent, never truncated)
         eps = 0.5 if kind == "i" else 0.125
         m["frac"] = [lab[0] + eps, lab[-1], lab[-1] - eps] + [l + eps for l in lab]
